@@ -56,6 +56,9 @@ def run(ck):
     ck.rule("R5", "symbolic memory returns the bytes that were written: writer/reader byte-order agreement of MemArray (rules shared with C13-R2)", floor=5)
     from rules.c13 import byte_order_rules
     byte_order_rules(ck, ck.repo.mod(SE), "R5")
+    ck.rule("R6", "SymbolMngr store discipline: every path of write() updates the matching table; no bypass, no removal instead of a store", floor=10)
+    from rules._symstore import symstore_rules
+    symstore_rules(ck, "R6")
 
     # effect summaries: which methods may write the symbolic state (transitively through self.* calls)
     writes = dict((n, _direct_state_write(f)) for n, f in meths.items())
